@@ -166,7 +166,7 @@ class C12(Prop):
                 # every physical line of a folded row still carries a hyphen
                 ncur = ncur if ncur is not None else g.randint(2, 5)
                 jt, neg = g.randrange(1, max(2, ncur)), g.random() < 0.5
-                style = g.choice(["2018-05-%02d", "%d-34", "7-%d-1"])
+                style = g.choice(["2018-05-%02d", "%d-34", "7-%d-1", "silty-sand-%d", "fine-grained-lime-stone-%d"])
 
                 def cell(i, j, jt=jt, neg=neg, style=style):
                     if j == jt:
